@@ -398,6 +398,25 @@ theorem byConstituency_max_seats_forced_witness :
       = .ok (.dict [(.cand 100, .list [.cand 0]), (.cand 101, .list [.cand 1])]) := by
   decide +kernel
 
+/-- still open: ByParty always hands `n_seats` (here its default None) to the overall evaluator, although a
+    call without seat count needs a seatless one -/
+theorem byParty_none_seats_witness :
+    WellFormed (.byParty (.fixedSeatCount haT (.num 3)) (some haT)) = false
+    ∧ eval (.byParty (.fixedSeatCount haT (.num 3)) (some haT))
+        { votes := nested [(100, [(0, 5), (1, 1)]), (101, [(0, 3), (1, 4)])] } = .error eType
+    ∧ denote (.byParty (.fixedSeatCount haT (.num 3)) (some haT))
+        { votes := nested [(100, [(0, 5), (1, 1)]), (101, [(0, 3), (1, 4)])] }
+      = .ok (.dict [(.cand 100, sv [(0, 1)]), (.cand 101, sv [(0, 1), (1, 1)])]) := by
+  decide +kernel
+
+/-- non-vacuity of `byParty_law`: overall D'Hondt on the totals, each party's seats split over the constituencies -/
+example :
+    let t : Ev := .byParty haT (some haT)
+    let a : Args := { votes := nested [(100, [(0, 5), (1, 1)]), (101, [(0, 3), (1, 4)])], n := some (.num 3) }
+    WellFormed t = true ∧ a.fits (takes t) = true
+    ∧ eval t a = .ok (.dict [(.cand 100, sv [(0, 1)]), (.cand 101, sv [(0, 1), (1, 1)])]) := by
+  decide +kernel
+
 /-! ## 5. what the laws say, spelled out -/
 
 /-- the ideal reading of per-constituency evaluation (a constituency the table does not mention has no
@@ -605,6 +624,57 @@ example :
     ∧ choicesClean (denote inputOrderT) a.votes [.cand 0, .tie [1, 2]] = true
     ∧ tieBreakingIdeal (denote plurT) (denote inputOrderT) a = .ok (.list [.cand 0, .cand 1])
     ∧ eval (.tieBreaking plurT inputOrderT) a = .ok (.list [.cand 0, .cand 1]) := by decide +kernel
+
+/-- number of places recorded for tie `t` -/
+def countOf (t : List Cand) (acc : List (List Cand × Nat)) : Nat :=
+  match acc.find? (fun p => p.1 = t) with
+  | some p => p.2
+  | Option.none => 0
+
+theorem countOf_bumpTie (t cs : List Cand) : ∀ acc : List (List Cand × Nat),
+    countOf t (bumpTie cs acc) = countOf t acc + (if cs = t then 1 else 0)
+  | [] => by
+      by_cases h : cs = t <;> simp [bumpTie, countOf, h]
+  | p :: ps => by
+      by_cases hp : p.1 = cs
+      · by_cases h : cs = t
+        · subst h; simp [bumpTie, countOf, hp]
+        · have : ¬ p.1 = t := fun e => h (hp ▸ e)
+          have ih := countOf_bumpTie t cs ps
+          simp [bumpTie, countOf, hp, h, this] at ih ⊢
+      · have ih := countOf_bumpTie t cs ps
+        by_cases hpt : p.1 = t
+        · have : ¬ cs = t := fun e => hp (e ▸ hpt)
+          have hne : ¬ t = cs := fun e => this e.symm
+          subst hpt
+          simp [bumpTie, countOf, hne, this]
+        · simp only [bumpTie, hp, if_false, countOf, List.find?_cons, hpt, decide_false] at ih ⊢
+          simpa [countOf] using ih
+
+theorem countOf_foldl (t : List Cand) : ∀ (l : List V) (acc : List (List Cand × Nat)),
+    countOf t (l.foldl (fun acc x => match x with
+      | .tie cs => bumpTie cs acc
+      | _ => acc) acc) = countOf t acc + tiePlaces t l
+  | [], acc => by simp [tiePlaces]
+  | x :: xs, acc => by
+      simp only [List.foldl_cons]
+      rw [countOf_foldl t xs]
+      cases x with
+      | tie cs =>
+        simp only [countOf_bumpTie, tiePlaces, List.filter_cons]
+        by_cases h : cs = t <;> simp [h] <;> omega
+      | num _ => simp [tiePlaces]
+      | cand _ => simp [tiePlaces]
+      | none => simp [tiePlaces]
+      | list _ => simp [tiePlaces]
+      | dict _ => simp [tiePlaces]
+
+/-- every tie is put to the tiebreaker with exactly its number of places in the main result -/
+theorem collectSel_count (t : List Cand) (l : List V) : countOf t (collectSel l) = tiePlaces t l := by
+  have := countOf_foldl t l []
+  simp only [countOf, List.find?_nil, Nat.zero_add] at this
+  unfold collectSel countOf
+  exact this
 
 /-- `fillTie` changes nothing else: every place that does not hold the tie keeps its entry … -/
 theorem fillTie_other_places (t : List Cand) : ∀ (res chosen out : List V), fillTie t res chosen = some out →
